@@ -730,13 +730,13 @@ pub fn run(tier: Tier, seed: u64) -> ! {
         rep.sample(json!({"scenario": sc.name, "A_parked_at": sc.site, "outcomes": outcomes}));
     }
     // (B)
-    let runs = tier.pick(3, 40);
+    let runs = tier.pick(3, 20);
     for case in 0..runs {
         for mix in ["labels_vs_delete", "props_index", "edges", "tx", "all"] {
             let threads = *[4usize, 8, 16].get(case as usize % 3).unwrap();
-            stress_lpg(&mut rep, seed, case as u64, threads, tier.pick(1500, 20_000), mix);
+            stress_lpg(&mut rep, seed, case as u64, threads, tier.pick(1500, 4_000), mix);
         }
-        stress_rdf_buffer(&mut rep, seed, case as u64, 4 + (case as usize % 3) * 4, tier.pick(3000, 50_000));
+        stress_rdf_buffer(&mut rep, seed, case as u64, 4 + (case as usize % 3) * 4, tier.pick(3000, 30_000));
     }
     let hits = hooks::hits();
     rep.extra.insert("yield_site_hits".into(), json!(hits));
